@@ -63,6 +63,9 @@ theorem zt_closed_form_sound_partial (ts : List (CTerm K)) (h : ∀ t ∈ ts, t.
 
 example : (⟨3, 2, 1 / 2, .step 1⟩ : CTerm ℚ).base.ok := by simp [Base.ok]
 example : (⟨1, 1, 2, .cos (3 / 5) (4 / 5) 1 0⟩ : CTerm ℚ).base.ok := by norm_num [Base.ok]
+-- a sinusoid gated by a delayed step (rule "multiplication with u(n-n0)") is covered as well
+example : (⟨1, 1, 1 / 2, .gated true false 3 (3 / 5) (4 / 5) (5 / 13) (12 / 13)⟩ : CTerm ℚ).base.ok := by
+  norm_num [Base.ok]
 
 /-- the geometric closed form, coefficient-wise: `(1 - a w) Σ a^n w^n = 1` -/
 theorem zt_geometric (a : K) :
@@ -97,6 +100,15 @@ theorem anchor_geometric {𝕜 : Type} [NormedField 𝕜] [CompleteSpace 𝕜] (
 theorem spec_predicate_accepts_model_partial [DecidableEq K] (ts : List (CTerm K)) (h : ∀ t ∈ ts, t.base.ok) (N : ℕ) :
     ztSpecCheck (sigVal ts) (ztSig ts) N = none :=
   ztSpecCheck_of_isZT (sigVal ts) (ztSig ts) (zt_closed_form_sound_partial ts h) N
+
+/-- DTFT of the causal geometric sequence: on the unit circle `z = e^{jΩ}` (‖z‖ = 1) with ‖a‖ < 1 the
+    bilateral defining sum `Σ_n a^n u[n] e^{-jΩn}` is the z-transform closed form evaluated at z -/
+theorem dtft_geometric_on_circle {𝕜 : Type} [NormedField 𝕜] [CompleteSpace 𝕜] (a z : 𝕜)
+    (hz : ‖z‖ = 1) (ha : ‖a‖ < 1) :
+    ∑' n : ℕ, a ^ n * (z⁻¹) ^ n = ZR.eval (ztTerm (⟨1, 0, a, .one⟩ : CTerm 𝕜)) z := by
+  have hz0 : z ≠ 0 := by
+    intro h; rw [h, norm_zero] at hz; exact zero_ne_one hz
+  exact anchor_geometric a z hz0 (by rw [norm_div, hz, div_one]; exact ha)
 
 /-! ## 3. Inverse transform: long division recovers the sequence -/
 
